@@ -261,6 +261,32 @@ class Value(Shape):
         return self.v
 
 
+class Derived(Shape):
+    """An input computed from the other (already made) inputs: Derived(lambda q0, res: q0 * res)."""
+
+    def __init__(self, fn, desc="derived"):
+        self.fn, self.desc = fn, desc
+
+    def describe(self):
+        return self.desc
+
+
+class Scaled(Shape):
+    """A fresh real expressed as (fresh real) * unit -- keeps VCs linear when the contract is
+    stated in units of `unit` (e.g. pixels): the value ranges over all reals when unit != 0."""
+
+    def __init__(self, unit):
+        self.unit = unit
+
+    def make(self, name):
+        from .sym import ctx
+
+        return ctx().fresh_real(name + ".u") * self.unit
+
+    def describe(self):
+        return "real (in units of another value)"
+
+
 class Custom(Shape):
     """Shape given by a function name -> value (may call other shapes' make)."""
 
